@@ -233,7 +233,7 @@ def kwf(case, name, default):
     return default if v is None else float.fromhex(v)
 
 
-def measure_exact(kind, xs, ys):
+def measure_exact(kind, xs, ys, y_own=None, x_in_y_order=None):
     """returns dict(model=key|None|'err', spec=strength|None) — exact Fractions.
     model key: a strictly increasing transform of the float the implementation sorts on.
     spec strength: strength of association (independent notion: H, eta^2, r^2, chi2, V^2, T^4)."""
@@ -263,10 +263,17 @@ def measure_exact(kind, xs, ys):
     if kind == "distance":
         a, b = complete_pairs(xs, ys)
         p = pearson_exact([fr(v) for v in a], [fr(v) for v in b])
+        spec = None if p is None else p[1]
+        if y_own is not None:
+            # the code: scipy correlation(x[~nans], y[~nans]) on the VALUES: x in X's row order, y
+            # (masked by label) in y's own row order -> rows are paired by position
+            a = [v for v in xs if not isnan(v)]
+            b = [w for w, v in zip(y_own, x_in_y_order) if not isnan(v)]
+            p = pearson_exact([fr(v) for v in a], [fr(v) for v in b])
         if p is None:
-            return {"model": None, "spec": None}
+            return {"model": None, "spec": spec}
         s, r2 = p
-        return {"model": 1 - s * r2, "spec": r2}
+        return {"model": 1 - s * r2, "spec": spec}
     if kind == "chi2":
         t = chi2_exact(xs, ys)
         return {"model": "err" if t is None else t[0], "spec": None if t is None else t[0]}
@@ -334,7 +341,10 @@ def build_tables(case, out):
     (b) float-level oracles: is a value that is exactly 0 reported as NaN (falsy), is an
     association exactly equal to thresh_corr reported above it."""
     n = case["n"]
-    y = decs(case["y"])
+    y, yperm = aligned_target(case)
+    y_own = decs(case["y"])
+    misaligned = yperm != list(range(len(y)))
+    inv = {m: k for k, m in enumerate(yperm)}
     res = {}
     for dtype in ("float", "str"):
         ms, fs, feats = case_lists(case, dtype)
@@ -361,7 +371,10 @@ def build_tables(case, out):
             cnt_mode = max(cnts.values()) if cnts else 0
             raws, specs = [], []
             for k in ms:
-                e = measure_exact(k, xs, y)
+                if misaligned and k == "distance":
+                    e = measure_exact(k, xs, y, y_own, [xs[inv[m]] for m in range(len(y_own))])
+                else:
+                    e = measure_exact(k, xs, y)
                 irep = (itab.get(f) or {}).get(COLNAME[k])
                 zero_nan = False
                 if FALSY_NAN[k] and e["model"] not in (None, "err") and e["model"] == 0:
@@ -415,7 +428,14 @@ def build_tables(case, out):
                         fragile.append(f"{f},{g}:{k}: association equals thresh_corr and the float "
                                        "comparison depends on the argument order")
             fil.append({"kind": k, "thresh": tk, "mat": mat, "gt": gt})
-        res[dtype] = {"names": names, "rows": rows, "ms": ms, "fs": fs, "mthr": mthr, "sthr": sthr,
+        cs = None
+        if case.get("colsample") is not None and isinstance(out, dict):
+            chunks, k = colsample_ints(case)
+            sh = next((s for s in (out.get("shuffled") or []) if set(s) == set(names)), list(names))
+            calls = [c[1] for c in (out.get("calls") or []) if c[0] == dtype]
+            observed = calls[:k] if len(calls) >= k else calls  # the samples (the last call is the final one)
+            cs = {"chunks": chunks, "k": k, "shuffled": sh, "observed": observed}
+        res[dtype] = {"cs": cs, "names": names, "rows": rows, "ms": ms, "fs": fs, "mthr": mthr, "sthr": sthr,
                       "tnan": tnan, "tmode": tmode, "filters": fil, "n": n, "fragile": fragile,
                       "n_best": case["n_best"]}
     return res
@@ -505,11 +525,34 @@ def pyref(case, tabs):
     out = []
     for dtype in ("float", "str"):
         if dtype in tabs:
-            r = pyref_type(tabs[dtype])
+            t = tabs[dtype]
+            if t.get("cs") is None:
+                r = pyref_type(t)
+            else:
+                best = []
+                for s in cs_samples(t["cs"]["chunks"], t["cs"]["k"], t["cs"]["shuffled"]):
+                    r = pyref_type(sub_table(t, s, t["n_best"] // 2))
+                    if r == "internal":
+                        return "internal"
+                    best += r
+                r = pyref_type(sub_table(t, best, t["n_best"])) if best else []
             if r == "internal":
                 return "internal"
             out += r
     return out
+
+
+def cs_samples(chunks, k, lst):
+    return [lst[chunks * i: chunks * (i + 1)] for i in range(k - 1)] + [lst[chunks * (k - 1):]]
+
+
+def sub_table(t, names, n_best):
+    row = {r["name"]: r for r in t["rows"]}
+    s = dict(t)
+    s["names"] = list(names)
+    s["rows"] = [row[f] for f in names]
+    s["n_best"] = n_best
+    return s
 
 
 # ------------------------------------------------------------------------------------------------
@@ -615,14 +658,41 @@ def build_frame(case):
         data[name] = pd.Series(decs(col), dtype=object)
     X = pd.DataFrame(data)
     yv = decs(case["y"])
+    xi, yi = row_labels(case)
+    if xi is not None:
+        X.index = pd.Index(xi)
     if all(isinstance(v, str) for v in yv):
         y = pd.Series(yv, dtype=object)
     elif any(isinstance(v, float) for v in yv):
         y = pd.Series(yv, dtype="float64")
     else:
         y = pd.Series(yv, dtype="int64")
+    if yi is not None:
+        y.index = pd.Index(yi)
     _ = np
     return X, y
+
+
+def row_labels(case):
+    """index labels of the rows of X and of y (None = default RangeIndex).  Columns of the case are
+    stored in X's row order, the target in y's row order; rows are paired BY LABEL."""
+    xi = decs(case["xi"]) if case.get("xi") is not None else None
+    yi = decs(case["yi"]) if case.get("yi") is not None else None
+    if xi is None and yi is None:
+        return None, None
+    n = case["n"]
+    return (xi if xi is not None else list(range(n))), (yi if yi is not None else list(range(n)))
+
+
+def aligned_target(case):
+    """(y in X's row order, permutation p with y_aligned[k] = y[p[k]]) by label alignment"""
+    y = decs(case["y"])
+    xi, yi = row_labels(case)
+    if xi is None:
+        return y, list(range(len(y)))
+    pos = {lab: m for m, lab in enumerate(yi)}
+    p = [pos[lab] for lab in xi]
+    return [y[m] for m in p], p
 
 
 def frames_equal(a, b):
@@ -657,10 +727,19 @@ def make_selector(case):
     if case["lf"] is not None:
         args["qualitative_filters"] = [F[k] for k in case["lf"]]
     cls = ClassificationSelector if case["task"] == "classification" else RegressionSelector
+    if case.get("colsample") is not None:
+        args["colsample"] = float.fromhex(case["colsample"])
     return cls(n_best=case["n_best"],
                quantitative_features=[n for n, _ in case["quanti"]] or None,
                qualitative_features=[n for n, _ in case["quali"]] or None,
                **args, **kw)
+
+
+def colsample_ints(case):
+    """(chunks, number of samples) exactly as BaseSelector.select computes them (CPython floats)"""
+    cs = float.fromhex(case["colsample"])
+    nf = len({n for n, _ in case["quanti"]} | {n for n, _ in case["quali"]})
+    return int(nf // (1 / cs)), int(1 / cs)
 
 
 def fnum(v):
@@ -685,6 +764,30 @@ def run_selector(case):
         out["err"] = "assert"
         return out
     out["order"] = {k: list(v) for k, v in sel.input_dtypes.items()}
+    undo = None
+    if case.get("colsample") is not None:
+        # oracles / observations of the colsample < 1 branch: the shuffled feature lists
+        # (random.shuffle under a seed of the case) and the feature list of every _select_features call
+        import random
+
+        import AutoCarver.selectors.base_selector as bs
+
+        random.seed(case.get("rseed", 0))
+        real_shuffle, real_sf = bs.shuffle, sel._select_features
+        out["shuffled"], out["calls"] = [], []
+
+        def rec_shuffle(lst):
+            real_shuffle(lst)
+            out["shuffled"].append([str(f) for f in lst])
+
+        def rec_sf(X_, y_, features, n_best, dtype):
+            out["calls"].append([str(dtype), [str(f) for f in features], int(n_best)])
+            return real_sf(X_, y_, features, n_best, dtype)
+
+        bs.shuffle, sel._select_features = rec_shuffle, rec_sf
+
+        def undo():
+            bs.shuffle = real_shuffle
     try:
         res = sel.select(X, y)
         out["sel"] = [str(f) for f in res]
@@ -693,6 +796,8 @@ def run_selector(case):
     except Exception as e:  # noqa: BLE001
         out["err"] = "internal"
         out["err_msg"] = f"{type(e).__name__}: {str(e)[:120]}"
+    if undo is not None:
+        undo()
     out["unchanged"] = bool(frames_equal(X, X0) and frames_equal(y, y0))
     # observable tables (same functions select() uses, fresh frames)
     for dtype in ("float", "str"):
@@ -1171,7 +1276,16 @@ def coq_type(t, sel):
     out = C.clist([f"{idx[f]}%nat" for f in sel if f in idx])
     return (f"mkT (mkTin {C.cZ(t['n'])} ({C.cZ(tn.numerator)}, {C.cZ(tn.denominator)}) "
             f"({C.cZ(tm.numerator)}, {C.cZ(tm.denominator)}) {max(0, int(t['n_best']))}%nat "
-            f"{C.clist(mspecs)} {C.clist(rows)} {C.clist(fils)}) {out} {C.cbool(bool(t['fragile']))}")
+            f"{C.clist(mspecs)} {C.clist(rows)} {C.clist(fils)}) {out} {C.cbool(bool(t['fragile']))} {coq_cs(t, idx)}")
+
+
+def coq_cs(t, idx):
+    cs = t.get("cs")
+    if cs is None:
+        return "None"
+    ids = lambda l: C.clist([f"{idx[f]}%nat" for f in l if f in idx])  # noqa: E731
+    return (f"(Some (mkCs {ids(cs['shuffled'])} {int(cs['chunks'])}%nat {int(cs['k'])}%nat "
+            f"{C.clist([ids(s) for s in cs['observed']])}))")
 
 
 def coq_case(case, out, tabs):
